@@ -23,6 +23,7 @@ struct R : Runner {
 		if (g_group == "arith") { ops1 = {OP_neg, OP_inc, OP_dec}; ops2 = {OP_add, OP_sub, OP_mul, OP_div}; }
 		if (g_group == "cmp") { ops1 = {OP_inc, OP_dec}; ops2 = {OP_eq, OP_ne, OP_lt, OP_le, OP_gt, OP_ge}; }
 		if (g_group == "conv") { ops1 = {OP_to_f64, OP_to_f32, OP_to_f64_rt}; }
+		if (g_group == "sqrt") { ops1 = {OP_sqrt}; }
 	}
 	std::string run(int op, const std::vector<std::string>& a) override {
 		return guarded([&]() -> std::string {
@@ -34,6 +35,7 @@ struct R : Runner {
 			case OP_mul: return Tr::out(x * Tr::mk(a[1]));
 			case OP_div: return Tr::out(x / Tr::mk(a[1]));
 			case OP_neg: return Tr::out(-x);
+			case OP_sqrt: return Tr::out(sqrt(x));
 			case OP_inc: { ++x; return Tr::out(x); }
 			case OP_dec: { --x; return Tr::out(x); }
 			case OP_eq: return b01(x == Tr::mk(a[1]));
